@@ -132,6 +132,12 @@ def check_inventories(_: "MdParserConfig", field: dc.Field, value: Any) -> None:
             raise TypeError(f"'{field.name}[{key}][1]' is not a null/string: {val[1]}")
 
 
+def check_positive_int(inst: "MdParserConfig", field: dc.Field, value: Any) -> None:
+    """Check that the value is an integer greater than zero."""
+    if not isinstance(value, int) or value <= 0:
+        raise TypeError(f"'{field.name}' is not a positive integer: {value!r}")
+
+
 def check_heading_slug_func(
     inst: "MdParserConfig", field: dc.Field, value: Any
 ) -> None:
@@ -337,7 +343,7 @@ class MdParserConfig:
     words_per_minute: int = dc.field(
         default=200,
         metadata={
-            "validator": instance_of(int),
+            "validator": check_positive_int,
             "help": "For reading speed calculations",
         },
     )
